@@ -53,9 +53,10 @@ func (m c03) marshalAndValidate(c *Ctx, d *DocSpec, incl []c03include, useRange 
 	}
 	var out []byte
 	var err error
+	var b *docBuilt
 	viaInclude := incl != nil
 	if pi := Guard(func() {
-		b := d.build()
+		b = d.build()
 		if useRange {
 			if col, ok := b.Doc.Data.(jsonapi.Collection); ok {
 				b.Doc.Data = jsonapi.Range(col, nil, nil, []string{}, 1000, 0)
@@ -123,6 +124,45 @@ func (m c03) marshalAndValidate(c *Ctx, d *DocSpec, incl []c03include, useRange 
 		c.Violate(cl+"/"+h, "%s; output %s; %s", msg, clip(string(out), 1200), desc())
 		return
 	}
+	// a payload handed to the caller stays what it was when later documents are marshaled
+	if c03kept != nil && digest(c03kept) != c03keptDigest {
+		c.Violate("earlier-payload-changed", "the bytes returned by an earlier MarshalDocument call changed when this document was marshaled; they now read %s", clip(string(c03kept), 300))
+		c03kept = nil
+		return
+	}
+	c03kept, c03keptDigest = out, digest(out)
+	c.Count("payloads_kept_across_the_next_marshal")
+	// a document read back with UnmarshalDocument and extended through Include with resources it already has
+	if !viaInclude && !strings.HasPrefix(tag, "unencodable") && len(d.Included) > 0 && (d.Kind == "resource" || d.Kind == "collection") && len(d.Errors) == 0 {
+		var out2 []byte
+		var err2 error
+		ok := false
+		if pi := Guard(func() {
+			doc2, uerr := jsonapi.UnmarshalDocument(out, b.Schema)
+			if uerr != nil {
+				return // C02 judges the round trip
+			}
+			for _, rs := range d.Included {
+				doc2.Include(buildResource(d.Schema.Type(rs.Type), rs))
+			}
+			if len(d.Primary) > 0 {
+				doc2.Include(buildResource(d.Schema.Type(d.Primary[0].Type), d.Primary[0]))
+			}
+			doc2.PrePath = d.Prefix
+			out2, err2 = jsonapi.MarshalDocument(doc2, b.URL)
+			ok = true
+		}); pi != nil {
+			c.Violate("panic@"+pi.Frame+"/"+panicClass(pi.Val)+"/include-after-unmarshal", "%s; %s", pi, desc())
+			return
+		}
+		if ok && err2 == nil {
+			c.Count("include_after_unmarshal")
+			if cl, msg, _ := validateStructure(out2, d.Prefix, false, true); cl != "" {
+				c.Violate(cl+"/include-after-unmarshal", "%s; output %s; %s", msg, clip(string(out2), 1200), desc())
+				return
+			}
+		}
+	}
 	if len(d.Errors) > 0 && !root.Has("errors") {
 		c.Violate("errors-dropped", "document carries %d errors but the output has no errors member: %s", len(d.Errors), clip(string(out), 600))
 		return
@@ -145,6 +185,10 @@ func (m c03) marshalAndValidate(c *Ctx, d *DocSpec, incl []c03include, useRange 
 		c.Nontrivial(jsonStr(d) + jsonStr(incl) + fmt.Sprint(useRange))
 	}
 }
+
+// c03kept is the payload the previous MarshalDocument call returned (the slice itself, not a copy).
+var c03kept []byte
+var c03keptDigest string
 
 // c03outs collects marshaled documents for the offline python re-parse (thorough).
 var c03outs [][]byte
